@@ -5,7 +5,7 @@ re-extracted from the C sources on every check (see tools/gen_params.py).
   hash_data_shape_ok             loop body, tail switch and finalisation still have the modelled shape
   int_hash_shape_ok              Int_Hash returns (uint64_t)c_int(self)
   float_hash_normalises_zero     true: Float_Hash maps both zeros to +0.0 (repaired); false: raw bits (pinned)
-  float_cmp_shape_ok             Float_Cmp is sign of the double difference
+  hash_float_cmp_shape_ok             Float_Cmp is sign of the double difference
   table_cmp_by_lookup            true: Table_Cmp first compares by lookup (repaired); false: slot-order walk only
   xor_fold_shape_ok              Array/List/Tuple/Table/Tree_Hash XOR the hashes of all elements
   memswap_shape_ok               memswap swaps bytes 0..s-1; swap calls it with size(type) for objects of one type
@@ -53,7 +53,7 @@ def generate(repo, emit, src, func_body):
     else:
         emit('float_hash_normalises_zero', None)
     fc = norm(func_body(n, r'static\s+int\s+Float_Cmp\s*\([^)]*\)\s*\{'))
-    emit('float_cmp_shape_ok', 'Definition float_cmp_shape_ok : bool := true.'
+    emit('hash_float_cmp_shape_ok', 'Definition hash_float_cmp_shape_ok : bool := true.'
          if fc == '{doublec=Float_C_Float(self)-c_float(obj);returnc>0?1:c<0?-1:0;}' else None)
 
     t = src('src/Table.c')
